@@ -13,5 +13,7 @@ CONSTANTS
   NChecks = 2
   MaxVer = 2
   DistShared = FALSE
+  NEntries = 0
+  NestedRead = FALSE
   Part = "accrual"
 INVARIANTS ScratchIsPrivate VerdictFromWindow
